@@ -12,7 +12,7 @@
 From Coq Require Import List Bool String NArith.
 Import ListNotations.
 Require Import Aiuti.Options Aiuti.OptionsInv AiutiGen.T_Options.
-Require Import Aiuti.Case_C15 Aiuti.OptionsMon Aiuti.OptionsRef Aiuti.OptionsRefInv Aiuti.OptionsRefBat.
+Require Import Aiuti.Case_C15 Aiuti.OptionsMon Aiuti.OptionsRef Aiuti.OptionsRefInv Aiuti.OptionsRefBat Aiuti.OptionsRefRet.
 
 (* Every option a decorator accepts is re-bound under its own name by the
    `@deco(opt=...)` form, applied under its own name by the direct form, and is
@@ -172,33 +172,24 @@ Theorem buffer_reference_refines_full_model : forall (T : N) (sc : list bufev),
 Proof. exact buffer_refines. Qed.
 Print Assumptions buffer_reference_refines_full_model.
 
-(* BATCHER.  Full statement wanted:  forall c sc, full_starts c sc = starts (brun c sc)  — the batch
-   starts (instant, keys) of the full batcher model (Batcher.v: queue collector, semaphore, futures,
-   retention cache and timers, callers — the model of C04/C09/C10/C11) on the translated script
-   (OptionsRef.translate: BCall k -> Call k None; BFin b -> BYield b key (Val b) for every item of the
-   running batch b, then BFinish b; Adv dt -> Advance dt) are those of Options.brun.
-   PROVED, by a simulation relation between the two state spaces (OptionsRefBat.Rs), for the two
-   sub-classes below; what is missing is exactly: scripts in which a batch function returns AND
-   retention_timeout > 0 (retained results and their expiry timers: Options keeps `RDone b expiry`
-   entries, Batcher.v a done future plus a call_later timer, and Batcher.advance walks the deadlines
-   one by one).  That part — and the per-caller answers for all of them — is evaluated by vm_compute
-   on every batcher / loops case of every run (Case_C15.ref_batcher_agree).
+(* BATCHER.  For EVERY configuration (max_batch_size, max_concurrent_batches, batch_timeout,
+   retention_timeout — zero or not) and EVERY script of calls (same key in flight shared, retained
+   results answered at once), batch-function returns and pauses: the batch starts (instant, keys) of
+   the full batcher model (Batcher.v: queue collector, semaphore, futures, retention cache and its
+   call_later timers, callers, Batcher.advance walking the deadlines with fuel — the model of
+   C04/C09/C10/C11) on the translated script (OptionsRef.translate: BCall k -> Call k None;
+   BFin b -> BYield b key (Val b) for every item of the running batch b, then BFinish b;
+   Adv dt -> Advance dt) are exactly those of Options.brun.
+   By simulation relations between the two state spaces (OptionsRefBat.Rs for retention_timeout = 0,
+   OptionsRefRet.Rs2 with retained results and armed timers for retention_timeout > 0).
+   Not part of this statement: the per-caller answers (instant, batch index); they, and the starts
+   again, are compared by vm_compute on every batcher / loops case of every run
+   (Case_C15.ref_batcher_agree).
    Time unit: Batcher.v mentions no concrete duration; its clock is counted in fifths of a tick here. *)
-
-(* (1) retention_timeout = 0 (the default), max_batch_size / max_concurrent_batches / batch_timeout
-   arbitrary, EVERY script of calls (same key in flight shared), batch-function returns and pauses:
-   collection by size and by batch_timeout, FIFO hand-over of the semaphore, release of the keys. *)
-Theorem batcher_reference_refines_full_model_ret0_partial : forall (c : bcfg) (sc : list bev),
-  cR c = 0%N -> full_starts c sc = starts (brun c sc).
-Proof. exact batcher_refines_ret0. Qed.
-Print Assumptions batcher_reference_refines_full_model_ret0_partial.
-
-(* (2) EVERY configuration (retention_timeout included) and every script of calls and pauses in which
-   no batch function returns. *)
-Theorem batcher_reference_refines_full_model_nofin_partial : forall (c : bcfg) (sc : list bev),
-  fin_free sc = true -> full_starts c sc = starts (brun c sc).
-Proof. exact batcher_refines_nofin. Qed.
-Print Assumptions batcher_reference_refines_full_model_nofin_partial.
+Theorem batcher_reference_refines_full_model : forall (c : bcfg) (sc : list bev),
+  full_starts c sc = starts (brun c sc).
+Proof. exact batcher_refines. Qed.
+Print Assumptions batcher_reference_refines_full_model.
 
 (* ---- non-vacuity ----------------------------------------------------------- *)
 Example batcher_refines_example :
@@ -218,6 +209,15 @@ Example batcher_refines_ret0_example :
                     B.BYield 1 3 (B.Val 1); B.BFinish 1; B.Advance 100%N; B.BYield 2 1 (B.Val 2); B.BFinish 2] /\
   full_starts c sc = [(0%N, [1; 2]); (30%N, [3]); (55%N, [1])] /\
   full_trace c sc = (trace_of (brun c sc), false).
+Proof. vm_compute. repeat split. Qed.
+
+Example batcher_refines_retention_example :
+  let c := mkcfg 2 1 25%N 40%N in
+  let sc := [BCall 1; BCall 2; Adv 3%N; BFin 0; Adv 10%N; BCall 1; BCall 3; Adv 35%N; BCall 1; Adv 30%N; BFin 1;
+             Adv 100%N; BFin 2] in
+  full_starts c sc = [(0%N, [1; 2]); (38%N, [3]); (78%N, [1])] /\
+  full_trace c sc = (trace_of (brun c sc), false) /\
+  snd (trace_of (brun c sc)) = [Some (3%N, 0); Some (3%N, 0); Some (13%N, 0); Some (78%N, 1); Some (178%N, 2)].
 Proof. vm_compute. repeat split. Qed.
 
 Example buffer_refines_example :
